@@ -33,8 +33,9 @@ def run_property(prop, tier, repo, only=None, quiet=False, overrides=None, write
         return _re.compile(rx)
     specs = [(r, None) if isinstance(r, str) else (r[0], _flt(r[1])) for r in PROPS[prop]['rules']]
     specs = [(r, f) for r, f in specs if r in RULES]
+    quick_specs = list(specs)
     if tier == 'thorough':
-        # thorough: every rule of the property armed on all of its obligations (no per-property construct filter)
+        # thorough: every rule of the property armed on all of its obligations (no per-property construct filter) ...
         specs = [(r, None) for r, f in specs]
     if only:
         specs = [(r, f) for r, f in specs if r == only]
@@ -75,8 +76,10 @@ def run_property(prop, tier, repo, only=None, quiet=False, overrides=None, write
             errors.append('%s: undecided shape in %s (%s:%d): %s -- %s' % (o.rule, o.func, o.file, o.line, o.construct, o.msg))
     extra = None
     if tier == 'thorough' and not only and overrides is None:
+        # ... plus the sensitivity audit over the functions the property's own (filtered) obligations are anchored in
         from . import audit
-        extra = audit.sensitivity(prop, repo, rule_ids, obls, errors)
+        own = [o for o in obls if any(r == o.rule and (f is None or f.search('%s :: %s' % (o.func, o.construct))) for r, f in quick_specs)]
+        extra = audit.sensitivity(prop, repo, quick_specs, own, errors)
     lines = []
     for o in obls:
         if o.status == VIOL and report.match_known(o, prop, known) is not None:
